@@ -362,6 +362,7 @@ func ruleTFmt(c *Ctx) {
 	}
 	// reader: what happens with res[k]
 	dest := readerGroupUse(reader)
+	closureGroupUse(reader, dest)
 	// (a) per position: class/width/base agree
 	for i := 1; i <= 2; i++ {
 		v := verbs[i]
@@ -579,6 +580,107 @@ func readerGroupUse(fn *ssa.Function) map[int]groupUse {
 		}
 	}
 	return out
+}
+
+// closureGroupUse: a function literal of the reader that parses res[i] for its parameter i (the groups slice
+// captured) and returns the parsed value: each call of it with a constant i is that parser applied to group i.
+func closureGroupUse(fn *ssa.Function, out map[int]groupUse) {
+	for _, anon := range fn.AnonFuncs {
+		if len(anon.Params) == 0 {
+			continue
+		}
+		var gu *groupUse
+		pidx := -1
+		for _, b := range anon.Blocks {
+			for _, ins := range b.Instrs {
+				ia, ok := ins.(*ssa.IndexAddr)
+				if !ok || ia.Referrers() == nil {
+					continue
+				}
+				for j, p := range anon.Params {
+					if ia.Index == ssa.Value(p) {
+						pidx = j
+					}
+				}
+				if pidx < 0 {
+					continue
+				}
+				// the indexed value is captured from the enclosing function
+				base := ia.X
+				if ld, ok := base.(*ssa.UnOp); ok {
+					base = ld.X
+				}
+				if _, isFree := base.(*ssa.FreeVar); !isFree {
+					continue
+				}
+				for _, r := range *ia.Referrers() {
+					ld, ok := r.(*ssa.UnOp)
+					if !ok || ld.Referrers() == nil {
+						continue
+					}
+					for _, u := range *ld.Referrers() {
+						call, ok := u.(*ssa.Call)
+						if !ok || call.Call.StaticCallee() == nil || len(call.Call.Args) == 0 || call.Call.Args[0] != ssa.Value(ld) {
+							continue
+						}
+						g := groupUse{parser: call.Call.StaticCallee().String()}
+						switch g.parser {
+						case "strconv.Atoi":
+							g.base = 10
+						case "strconv.ParseInt", "strconv.ParseUint":
+							g.bits = -1
+							if bv, ok := constInt(call.Call.Args[2]); ok {
+								g.bits = int(bv.Int64())
+							}
+							if bv, ok := constInt(call.Call.Args[1]); ok {
+								g.base = int(bv.Int64())
+							}
+						default:
+							continue
+						}
+						// the literal returns the parsed value (possibly converted)
+						returnsIt := false
+						for _, rb := range anon.Blocks {
+							if ret, ok := rb.Instrs[len(rb.Instrs)-1].(*ssa.Return); ok && len(ret.Results) >= 1 {
+								v := ret.Results[0]
+								if cv, ok := v.(*ssa.Convert); ok {
+									v = cv.X
+								}
+								if ex, ok := v.(*ssa.Extract); ok && ex.Tuple == ssa.Value(call) && ex.Index == 0 {
+									returnsIt = true
+								}
+							}
+						}
+						if returnsIt && gu == nil {
+							gg := g
+							gu = &gg
+						}
+					}
+				}
+			}
+		}
+		if gu == nil || pidx < 0 {
+			continue
+		}
+		// its calls in the enclosing function
+		for _, b := range fn.Blocks {
+			for _, ins := range b.Instrs {
+				call, ok := ins.(*ssa.Call)
+				if !ok {
+					continue
+				}
+				mc, ok := call.Call.Value.(*ssa.MakeClosure)
+				if !ok || mc.Fn != ssa.Value(anon) || pidx >= len(call.Call.Args) {
+					continue
+				}
+				if k, ok := constInt(call.Call.Args[pidx]); ok {
+					g := *gu
+					g.field = resultDestField(call)
+					out[int(k.Int64())] = g
+				}
+			}
+		}
+	}
 }
 
 // helperParse: fn(digits string, ...) hands its first parameter to exactly one strconv parser and
